@@ -174,8 +174,8 @@ End EvtMember.
    A = the annotation type after the rewriter chain.  In every namespace binding None, Ellipsis, the typing
    names and the root-relative dotted path of A's classes, the token-level rendering of A evaluates to a type
    that admits every observed value.  `ok A` excludes exactly the annotations that still contain a TypedDict
-   (with max_typed_dict_size = 0, MonkeyType's default, none does — a fact about get_type that is evaluated
-   in the examples, not proved here) and unions made of None only. *)
+   (with max_typed_dict_size = 0, MonkeyType's default, the merged type has none: Props/C06.v k0_no_typeddict;
+   that the rewriters introduce none is not proved, hence the explicit premise) and unions made of None only. *)
 Theorem pipeline_sound_rendered_partial h bt k rs (obs : list value) (stored : list ty) T v ct ns :
   wf_hier h = true -> bt_ok h bt = true -> chain_ok rs = true ->
   forallb wf_valueb obs = true ->
